@@ -41,7 +41,12 @@ func handPickedNamed() map[string]Case {
 		return Case{Schema: fixedSchema(), Docs: []Doc{{Defs: defs}}, Seed: 7, Worlds: 4}
 	}
 	q := func(sels ...Sel) Def { return Def{Kind: "query", Name: "Q1", Sels: sels} }
+	clash := fixedSchema()
+	clash.Types[0].Values = []string{"RED", "red", "A_B", "AB", "_"}
+	sn := selNameClash()
 	return map[string]Case{
+		"F-20f-enum-constant-collision": {Schema: clash, Docs: []Doc{{Defs: []Def{q(f("a", f("c")))}}}, Seed: 7, Worlds: 4},
+		"F-20g-sel-type-name-collision": sn,
 		"F-20a-inline-fragment-without-type-condition": mk(q(f("a", Sel{Kind: "i", Sels: []Sel{f("x")}}))),
 		"F-20b-union-condition-inside-object":          mk(q(f("a", on("Thing", f("__typename")), f("x")))),
 		"F-20b-union-condition-inside-interface":       mk(q(f("i", f("__typename"), on("Thing", f("__typename"), on("Alpha", f("c")), on("Beta", f("y")))))),
@@ -72,13 +77,9 @@ func findingCases() map[string]Case {
 		return Case{Schema: s, Docs: []Doc{{Defs: defs}}, Seed: 7, Worlds: 4}
 	}
 	q := func(sels ...Sel) Def { return Def{Kind: "query", Name: "Q1", Sels: sels} }
-	clash := fixedSchema()
-	clash.Types[0].Values = []string{"RED", "red"}
 	return map[string]Case{
 		"F-20d-response-key-vs-fragment-holder-name": mk(fixedSchema(), q(f("a", on("Alpha", f("x")), fa("alpha", "id")))),
 		"F-20e-repeated-type-condition-loses-fields": mk(fixedSchema(), q(f("u", f("__typename"), on("Alpha", f("x")), on("Alpha", f("c"))))),
-		"F-20f-enum-constant-collision":              mk(clash, q(f("a", f("c")))),
-		"F-20g-sel-type-name-collision":              selNameClash(),
 	}
 }
 
